@@ -120,7 +120,7 @@ pub fn python_leg(tier: Tier, all: &[Selected], rep: &mut Reporter, counters: &m
             let tf = root.join(format!("{id}.task.json"));
             let rf = root.join(format!("{id}.result.jsonl"));
             let _ = std::fs::write(&tf, serde_json::to_string(&task).unwrap());
-            let _ = Command::new("timeout").arg("300").arg(&python).arg(format!("{VERIF_DIR}/drivers/pydrv.py")).arg(&tf).arg(&rf).env("PYTHONDONTWRITEBYTECODE", "1").status();
+            let _ = Command::new("timeout").arg("3600").arg(&python).arg(format!("{VERIF_DIR}/drivers/pydrv.py")).arg(&tf).arg(&rf).env("PYTHONDONTWRITEBYTECODE", "1").status();
             let result: Option<J> = std::fs::read_to_string(&rf).ok().and_then(|s| s.lines().next().and_then(|l| serde_json::from_str(l).ok()));
             let _ = std::fs::remove_file(&tf);
             let _ = std::fs::remove_file(&rf);
